@@ -158,10 +158,17 @@ def run_check(pid, tier, seed):
         if vc.status == "refuted" and hit:
             S.known_hits.append((hit[0], {"vc": vc.name}))
             continue
+        rp = None
+        if vc.status == "refuted":
+            rp = generic_replay(vc, contract, S)
         if vc.status == "refuted" and vc.role in ("prop", "safety"):
-            # replay: ask the property module for a concrete failing input of the real code
+            # replay: the verifier's counterexample against the real code; else a bounded search for a failing input
             found = None
-            if hasattr(pm, "concretize"):
+            if rp and rp.get("holds") is False:
+                found = {"checker": "__function__", "input": {"function": vc.func, "args": rp["input"],
+                                                              "clause": rp.get("clause")},
+                         "failed": ["clause %s is false on the real code; observed %s" % (rp.get("clause"), rp.get("observed"))]}
+            elif hasattr(pm, "concretize"):
                 try:
                     found = pm.concretize(vc, tier, seed)
                 except Exception as e:
@@ -169,7 +176,8 @@ def run_check(pid, tier, seed):
                     S.errors.append("concretize(%s): %s" % (vc.name, e))
             path = os.path.join(ROOT, "replays", pid, sanitize(vc.name) + ".json")
             rec = {"property": pid, "kind": "obligation", "obligation": vc.name, "where": vc.where,
-                   "function": vc.func, "solver": vc.backend, "solver_output": vc.detail, "note": vc.note}
+                   "function": vc.func, "solver": vc.backend, "solver_output": vc.detail, "note": vc.note,
+                   "model_replay": rp}
             if found:
                 rec.update({"checker": found["checker"], "input": found["input"], "failed": found["failed"]})
             json.dump(rec, open(path, "w"), indent=1, default=str)
@@ -178,8 +186,10 @@ def run_check(pid, tier, seed):
         elif vc.status == "refuted":
             # auxiliary clause refuted: not a violation by itself (DESIGN 3.1); the property-level clauses that
             # depend on it are no longer established -> undecided unless the bounded run shows a real violation
-            S.undecided.append({"obligation": vc.name, "why": "auxiliary clause refuted (%s); dependent property "
-                                "clauses rest on it" % vc.backend, "model": vc.detail[:500]})
+            S.undecided.append({"obligation": vc.name, "why": "auxiliary clause refuted (%s)%s; dependent property "
+                                "clauses rest on it" % (vc.backend, ", counterexample confirmed on the real code"
+                                                        if rp and rp.get("holds") is False else ""),
+                                "model": vc.detail[:500], "model_replay": rp})
         else:
             S.undecided.append({"obligation": vc.name, "why": "solver: %s" % (vc.detail or "unknown")[:200]})
     # known findings must still reproduce
@@ -197,7 +207,11 @@ def run_check(pid, tier, seed):
     for e in S.errors:
         print("CHECKER-ERROR property=%s %s" % (pid, e.strip().splitlines()[-1][:300]))
         sys.stderr.write(e + "\n")
+    seen_v = set()
     for v in S.violations:
+        if v["replay"] in seen_v:
+            continue
+        seen_v.add(v["replay"])
         print("VIOLATION property=%s replay=%s%s" % (pid, v["replay"], "" if v["found_input"] else " no-failing-input-found"))
     nd = sum(1 for vc in vcs if vc.status == "discharged")
     print("property=%s tier=%s obligations=%d discharged=%d undecided=%d violations=%d bounded_cases=%s wall=%.1fs" %
@@ -210,6 +224,32 @@ def run_check(pid, tier, seed):
     if S.undecided:
         return 2, S, ev
     return 0, S, ev
+
+
+def generic_replay(vc, contract, S):
+    """replay the solver's counter-model of a function-level obligation against the real code"""
+    from pyvc import replay as rpl, sym
+    from pyvc.engine import PathCtx, Run
+    con = contract.REGISTRY.get(vc.func)
+    if con is None:
+        return None
+    case = {}
+    for rep in S.reports:
+        if vc in rep.vcs:
+            case = getattr(rep, "case", None) or {}
+            break
+    try:
+        run = Run(vc.func, None)
+        ctx = PathCtx(run, [])
+        old = sym._CUR[0]
+        sym._CUR[0] = ctx
+        try:
+            sym_args = con.args(contract.C(), **case) if case else con.args(contract.C())
+        finally:
+            sym._CUR[0] = old
+        return rpl.replay_function_vc(vc, con, sym_args, case)
+    except Exception as e:
+        return {"error": "replay failed: %r" % e}
 
 
 def write_evidence(pm, S, L, vcs, funcs_ok, funcs_oor, bres, npstub):
@@ -279,13 +319,37 @@ def replay(pid, path):
               (rec.get("obligation"), rec.get("solver_output")))
         print("VIOLATION property=%s replay=%s no-failing-input-found" % (pid, path))
         return 1
-    failed = pm.CHECKERS[rec["checker"]](rec["input"])
+    if rec["checker"] == "__function__":
+        failed = replay_function_record(pm, rec)
+    else:
+        failed = pm.CHECKERS[rec["checker"]](rec["input"])
     if failed:
         print("replayed %s on the real code: %s" % (rec["checker"], failed))
         print("VIOLATION property=%s replay=%s" % (pid, path))
         return 1
     print("replay of %s: clause holds on the current tree" % rec["checker"])
     return 0
+
+
+def replay_function_record(pm, rec):
+    import types
+    import numpy as np
+    from pyvc import replay as rpl, contract
+    for sc in pm.SIDECARS:
+        importlib.import_module(sc)
+    con = contract.REGISTRY[rec["input"]["function"]]
+    args = {k: (np.array(v) if isinstance(v, list) else v) for k, v in rec["input"]["args"].items()}
+    fn = rpl.real_function(con.name)
+    import copy
+    try:
+        res = fn(**copy.deepcopy(args))
+    except Exception as e:
+        return ["real function raised %r" % e]
+    a = types.SimpleNamespace(**args)
+    for cl in con.post(contract.CC(), a, res):
+        if cl.label == rec["input"]["clause"] and not bool(cl.cond):
+            return ["clause %s is false on the real code (result %s)" % (cl.label, np.asarray(res).tolist() if not isinstance(res, (bool, float, int)) else res)]
+    return []
 
 
 def main():
